@@ -44,6 +44,7 @@ type Prog struct {
 	NumPkgs int
 	eff     *Effects
 	nila    *NilAnalysis
+	bimaps  *biMaps
 }
 
 // Load loads /repo's current working tree.
